@@ -1063,6 +1063,7 @@ class HttpPayloadParser:
                             set_exception(self.payload, exc)
                             raise exc
                         self._chunk_tail = chunk
+                        self._paused = False  # see the final return
                         return PayloadState.PAYLOAD_NEEDS_INPUT, b""
 
                 # read chunk and feed buffer
@@ -1101,6 +1102,7 @@ class HttpPayloadParser:
                         raise exc
                     else:
                         self._chunk_tail = chunk
+                        self._paused = False  # see the final return
                         return PayloadState.PAYLOAD_NEEDS_INPUT, b""
 
                 if self._chunk == ChunkState.PARSE_TRAILERS:
@@ -1113,6 +1115,7 @@ class HttpPayloadParser:
                             set_exception(self.payload, exc)
                             raise exc
                         self._chunk_tail = chunk
+                        self._paused = False  # see the final return
                         return PayloadState.PAYLOAD_NEEDS_INPUT, b""
 
                     line = chunk[:pos]
@@ -1156,6 +1159,11 @@ class HttpPayloadParser:
                 self._eof_pending = False
                 return PayloadState.PAYLOAD_COMPLETE, b""
 
+        # Everything fed so far has been consumed: a pause requested during
+        # this call is over.  A flag left set would make a later call return
+        # PAYLOAD_HAS_PENDING_INPUT before feeding anything, with nobody left
+        # to call resume_reading() (reader drained, transport reading).
+        self._paused = False
         return PayloadState.PAYLOAD_NEEDS_INPUT, b""
 
 
